@@ -4,6 +4,7 @@ import (
 	"context"
 	"errors"
 	"fmt"
+	pkgerrors "github.com/pkg/errors"
 	"runtime/pprof"
 	"strings"
 	"sync"
@@ -108,6 +109,9 @@ func runC18(c *Ctx) error {
 		// a handler error that wraps a context error (the handler's own database call timed out, say) is a handler error
 		cases = append(cases, c18Case{Class: "context-error-from-handler", AckErrors: ack,
 			Callers: []c18Caller{{"c1x", "drain", 1, false}, {"c2y", "sendwithreply", 1, false}, {"c3", "drain", 1, false}, {"c4y", "readone", 2, false}}})
+		// ... and so is one whose text comes from several layers of wrapping
+		cases = append(cases, c18Case{Class: "wrapped-error-from-handler", AckErrors: ack,
+			Callers: []c18Caller{{"c1w", "drain", 1, false}, {"c2w", "sendwithreply", 1, false}, {"c3", "drain", 1, false}}})
 		// the publish of the reply fails once: the command must be Nacked and redelivered whatever AckCommandErrors says
 		for _, fail := range []int{0, 1} {
 			cases = append(cases, c18Case{Class: "reply-publish-fails", AckErrors: ack, Callers: []c18Caller{{"c1", "drain", fail, true}, {"c2", "readone", 0, false}}})
@@ -115,6 +119,13 @@ func runC18(c *Ctx) error {
 		if !ack {
 			// ... unless a ReplyPublishErrorHandler swallows the publish error: then the handler's own outcome decides (here: an error, so Nack and redelivery)
 			cases = append(cases, c18Case{Class: "reply-publish-error-swallowed", AckErrors: false, Swallow: true, Callers: []c18Caller{{"c1", "drain", 1, true}, {"c2", "readone", 0, false}}})
+		}
+		{
+			cs := c18Case{Class: "cancel-at-reply-publish", AckErrors: ack}
+			for i := 0; i < 48; i++ {
+				cs.Callers = append(cs.Callers, c18Caller{fmt.Sprintf("k%d", i+1), "cancelonpub", i % 2, false})
+			}
+			cases = append(cases, cs)
 		}
 		for _, n := range []int{2, 8, 32} {
 			cs := c18Case{Class: fmt.Sprintf("concurrent/%d", n), AckErrors: ack}
@@ -204,6 +215,16 @@ func c18Body(r *tr.Run, cs c18Case) {
 	if cs.Timeout > 0 {
 		tmo = &cs.Timeout
 	}
+	onPub, pubSeen := map[string]func(){}, map[string]bool{}
+	register := func(name string, f func()) {
+		mu.Lock()
+		onPub[name] = f
+		seen := pubSeen[name]
+		mu.Unlock()
+		if seen {
+			f()
+		}
+	}
 	pubFail := map[string]bool{}
 	for _, cl := range cs.Callers {
 		if cl.PubFail {
@@ -215,7 +236,15 @@ func c18Body(r *tr.Run, cs c18Case) {
 			return
 		}
 		for _, m := range msgs {
-			r.Emit("replypub", "c", m.Metadata.Get("caller"), "n", atoiSafe(m.Metadata.Get("n")))
+			cn := m.Metadata.Get("caller")
+			r.Emit("replypub", "c", cn, "n", atoiSafe(m.Metadata.Get("n")))
+			mu.Lock()
+			f := onPub[cn]
+			pubSeen[cn] = true
+			mu.Unlock()
+			if f != nil {
+				f() // (a caller that ends its request the moment its reply has been published)
+			}
 		}
 	}, fail: func(msgs []*message.Message) bool {
 		mu.Lock()
@@ -305,6 +334,8 @@ func c18Body(r *tr.Run, cs c18Case) {
 				return c18Res{cmd.Caller, n}, c18EmptyErr{}
 			}
 			switch cmd.Wraps {
+			case "pkg":
+				return c18Res{cmd.Caller, n}, pkgerrors.Wrap(errors.New("root cause"), "scripted handler error")
 			case "canceled":
 				return c18Res{cmd.Caller, n}, c18WrapErr{context.Canceled}
 			case "deadline":
@@ -351,7 +382,7 @@ func c18Body(r *tr.Run, cs c18Case) {
 			mu.Lock()
 			fch := finishedCh[cl.Name]
 			mu.Unlock()
-			c18Caller1(r, cs, cl, bus, backend, fch)
+			c18Caller1(r, cs, cl, bus, backend, fch, register)
 		}()
 	}
 	for i := 0; i < cs.Foreign; i++ {
@@ -443,7 +474,7 @@ func atoiSafe(s string) int {
 	return n
 }
 
-func c18Caller1(r *tr.Run, cs c18Case, cl c18Caller, bus *cqrs.CommandBus, backend requestreply.Backend[c18Res], finished chan struct{}) {
+func c18Caller1(r *tr.Run, cs c18Case, cl c18Caller, bus *cqrs.CommandBus, backend requestreply.Backend[c18Res], finished chan struct{}, register func(string, func())) {
 	ctx, cancelCtx := context.WithCancel(context.Background())
 	defer cancelCtx()
 	if cs.Timeout > 0 && (strings.HasSuffix(cl.Name, "1") || strings.HasSuffix(cl.Name, "3")) {
@@ -457,6 +488,8 @@ func c18Caller1(r *tr.Run, cs c18Case, cl c18Caller, bus *cqrs.CommandBus, backe
 		cmd.Wraps = "canceled"
 	} else if strings.HasSuffix(cl.Name, "y") {
 		cmd.Wraps = "deadline"
+	} else if strings.HasSuffix(cl.Name, "w") {
+		cmd.Wraps = "pkg" // an error wrapped with context (github.com/pkg/errors): the reply carries the whole text
 	}
 	logReply := func(rep requestreply.Reply[c18Res]) {
 		var te requestreply.ReplyTimeoutError
@@ -471,6 +504,9 @@ func c18Caller1(r *tr.Run, cs c18Case, cl c18Caller, bus *cqrs.CommandBus, backe
 		et := ""
 		if rep.Error != nil {
 			et = rep.Error.Error()
+		}
+		if strings.HasSuffix(cl.Name, "w") && et == "scripted handler error: root cause" {
+			et = "scripted handler error" // (the whole text arrived; the specification knows the handler's error by this name)
 		}
 		if rep.HandlerResult.Caller != "" && rep.HandlerResult.Caller != from {
 			from = "mixed:" + rep.HandlerResult.Caller + "/" + from
@@ -583,6 +619,11 @@ func c18Caller1(r *tr.Run, cs c18Case, cl c18Caller, bus *cqrs.CommandBus, backe
 		if cs.Timeout == 0 {
 			end()
 		}
+		drain()
+	case "cancelonpub":
+		// the request is ended at the very moment its reply has been published: the reply reaches the listener together with the end
+		var once sync.Once
+		register(cl.Name, func() { once.Do(end) })
 		drain()
 	}
 }
